@@ -209,9 +209,9 @@ func planName(backend string, seed int64, idx int) (string, string) {
 }
 
 // clientPlans draws the seeded plans of n clients with at most total operations.
-func clientPlans(r *rand.Rand, tag string, first, n, total int, reopenP float64) []ClientCfg {
+func clientPlans(r *rand.Rand, tag string, first, n, total int, reopenP float64, unique bool) []ClientCfg {
 	values := "unique"
-	if r.IntN(5) == 0 {
+	if r.IntN(5) == 0 && !unique {
 		values = "small"
 	}
 	var cs []ClientCfg
@@ -347,7 +347,7 @@ func (e *env) record(backend string, idx int) *History {
 		observer = open
 		opts := FakeOpts{Seed: r.Uint64()}
 		if strings.Contains(mode, "delay") {
-			opts.DelayUs = []int{200, 1000, 3000}[r.IntN(3)]
+			opts.DelayUs = []int{100, 400, 1500}[r.IntN(3)]
 		}
 		if strings.Contains(mode, "fault") {
 			opts.FaultP = 0.05 + 0.15*r.Float64()
@@ -358,7 +358,15 @@ func (e *env) record(backend string, idx int) *History {
 		if strings.Contains(mode, "reopen") {
 			reopenP = 0.08
 		}
-		cs := clientPlans(r, tag, 1, nclients, total, reopenP)
+		// A transport fault makes the SDK send the conditional write again. With
+		// repeating values the second copy can succeed after the first was
+		// applied and overwritten back (ABA), i.e. one Replace takes effect
+		// twice; checkpoints never repeat, so faults are combined with unique
+		// values only (and a request then identifies its operation).
+		cs := clientPlans(r, tag, 1, nclients, total, reopenP, opts.FaultP > 0)
+		for i := range cs {
+			cs[i].HTTP = true
+		}
 		var groups [][]ClientCfg
 		if strings.HasPrefix(mode, "shared") {
 			groups = [][]ClientCfg{cs}
@@ -383,7 +391,7 @@ func (e *env) record(backend string, idx int) *History {
 	// a final observer on a freshly opened backend, after everything returned
 	oc := &collector{}
 	if be, cl, err := observer(); err == nil {
-		c := newClient(ClientCfg{Index: nclients + 1, Seed: 1, NOps: 0}, logID, be, cl, nil, oc.emit)
+		c := newClient(ClientCfg{Index: nclients + 1, Seed: 1, NOps: 0, HTTP: backend != "sqlite"}, logID, be, cl, nil, oc.emit)
 		c.do("fetch", nil, nil, false)
 		cl()
 	} else {
@@ -401,6 +409,9 @@ func (e *env) record(backend string, idx int) *History {
 		var un []string
 		reqs, un = st.Take(key)
 		h.Unrecognised = append(h.Unrecognised, un...)
+		// the backends have no Close: drop their idle connections from this side
+		e.ddb.srv.CloseClientConnections()
+		e.s3.srv.CloseClientConnections()
 	}
 	assemble(h, pair(raw), nclients+1, reqs)
 	return h
@@ -414,7 +425,7 @@ func (e *env) sqliteHistory(h *History, r *rand.Rand, mode, tag, path string, lo
 	}
 	switch mode {
 	case "goroutines", "conns", "conns-reopen", "mixed":
-		cs := clientPlans(r, tag, 1, nclients, total, reopenP)
+		cs := clientPlans(r, tag, 1, nclients, total, reopenP, false)
 		var groups [][]ClientCfg
 		switch mode {
 		case "goroutines":
@@ -451,7 +462,7 @@ func (e *env) sqliteHistory(h *History, r *rand.Rand, mode, tag, path string, lo
 				n = max(1, nclients-n)
 			}
 		}
-		cs := clientPlans(r, fmt.Sprintf("%sp%d", tag, ph), next, n, total/phases, reopenP)
+		cs := clientPlans(r, fmt.Sprintf("%sp%d", tag, ph), next, n, total/phases, reopenP, false)
 		next += n
 		// one client of the first phase may stay in this process
 		var local []ClientCfg
